@@ -225,6 +225,7 @@ pub struct Task {
     pub callbacks: u32,
     pub codes: Vec<u32>,
     pub is_block_on: bool,
+    pub is_v1: bool,
 }
 
 #[derive(Copy, Clone, PartialEq, Eq, Debug)]
@@ -387,7 +388,7 @@ impl Host {
             free: Vec::new(),
             shared: Vec::new(),
             ops: Vec::new(),
-            tasks: vec![Task { id: 0, ctx: 0, st: TaskSt::Running, returned: 0, task_cancel_calls: 0, cancel_delivered: false, callbacks: 0, codes: vec![], is_block_on: false }],
+            tasks: vec![Task { id: 0, ctx: 0, st: TaskSt::Running, returned: 0, task_cancel_calls: 0, cancel_delivered: false, callbacks: 0, codes: vec![], is_block_on: false, is_v1: false }],
             cur_task: 0,
             wasip3: 0,
             cur_shared_ptr: 0,
@@ -1302,7 +1303,7 @@ impl Host {
 
     pub fn new_task(&mut self, is_block_on: bool) -> u32 {
         let id = self.tasks.len() as u32;
-        self.tasks.push(Task { id, ctx: 0, st: TaskSt::NotStarted, returned: 0, task_cancel_calls: 0, cancel_delivered: false, callbacks: 0, codes: vec![], is_block_on });
+        self.tasks.push(Task { id, ctx: 0, st: TaskSt::NotStarted, returned: 0, task_cancel_calls: 0, cancel_delivered: false, callbacks: 0, codes: vec![], is_block_on, is_v1: false });
         id
     }
 
@@ -1321,8 +1322,10 @@ impl Host {
     pub fn wasip3_task_set(&mut self, p: usize) -> usize {
         let prev = std::mem::replace(&mut self.wasip3, p);
         if p != 0 {
-            // SAFETY: the runtime passes a pointer to a live `wasip3_task`
-            self.cur_shared_ptr = unsafe { (*(p as *const crate::cabi::Wasip3Task)).ptr as usize };
+            // SAFETY: the caller passes a pointer to a live `wasip3_task`; only
+            // the runtime's own (v2) tasks point to a `SharedTaskState`
+            let t = unsafe { &*(p as *const crate::cabi::Wasip3Task) };
+            self.cur_shared_ptr = if t.version >= crate::cabi::WASIP3_TASK_V2 { t.ptr as usize } else { 0 };
         }
         self.call("wasip3_task_set", (p != 0) as u64, 0, (prev != 0) as u64);
         prev
